@@ -83,7 +83,13 @@ Inductive apireq :=
 | AMessage (tag : N)
 (* "dialout": start a call to a phone number. ok = the request passes the checks made before a client is
    looked for (E.164 number, numeric room id); the room of the op is the number the room id spells *)
-| ADialout (ok : bool).
+| ADialout (ok : bool)
+(* the room request "transient" (room.go processBackendRoomRequestRoom): set a key of the room's transient data
+   (del = false) or delete it (del = true).  It is not a request type of the HTTP room API (backend_server.go
+   answers 400 "Unsupported request type"): it is published on the room's backend subject by hub.go for a dial-out
+   status, or arrives from another server of the cluster.  val = 0: a set without value, which removes the key.
+   The hub model has no time-to-live (coq/model/Transient.v has): the driver sends none. *)
+| ATransient (del : bool) (key val : N).
 
 Inductive internalreq :=
 | IAdd (v room user : N) (flags incall : option N)
@@ -113,6 +119,13 @@ Inductive op :=
 
 Inductive rcpt := RcptVirtual (v : N) | RcptSid (s : N) | RcptOther.
 
+(* the "transient" server messages: the whole data of the room (sent when a session joins a room whose data is not
+   empty), a value that was set (with the previous one when there was one), a key that was removed *)
+Inductive tmsg :=
+| TInit (d : list (N * N))                     (* key -> value *)
+| TSet (key val : N) (old : option N)
+| TRemove (key : N) (old : option N).
+
 (* what a client can read (projection applied by the harness) *)
 Inductive smsg :=
 | SWelcome
@@ -134,7 +147,7 @@ Inductive smsg :=
    the trace predicates only (corr/Hub_preds.v part_ok) *)
 | SPartL (all room : N) (ids : list N)
 | SFlags (sid flags : N)
-| STransient (k key : N)
+| STransient (t : tmsg)
 | SDialout (room : N)                          (* "internal"/"dialout": the request handed to a dial-out client *)
 | SOther (k : N).
 
@@ -145,6 +158,7 @@ Definition E_invalid_token := 7.       Definition E_no_such_session := 8.
 Definition E_too_many_requests := 11.  Definition E_already_joined := 13.
 Definition E_not_allowed := 14.        Definition E_client_not_found := 15.
 Definition E_not_in_room := 17.        Definition E_invalid_user := 19.
+Definition E_ignored := 18.
 Definition E_session_limit := 21.
 Definition E_token_not_valid_yet := 9. Definition E_token_expired := 10.
 Definition B_hello_timeout := 1.       Definition B_room_join_timeout := 2.
@@ -758,7 +772,7 @@ Definition join_room (h : hub) (c sid : N) (k : N * N) (rs : N) (perms : option 
           let '(h10, outs3) := if already then (h9, [])
                                else match r.(r_transient) with
                                     | [] => (h9, [])
-                                    | _ => send_session h9 sid (STransient 0 0) end in
+                                    | d => send_session h9 sid (STransient (TInit d)) end in
           let h11 := publish h10 (SubjBackendRoom (fst k) (snd k)) (ASessionJoined sid (is_internal s.(s_kind))) in
           (h11, outs1 ++ outs2 ++ outs3)
       end
@@ -916,6 +930,34 @@ Definition delete_member (hh : hub) (m : N) : hub * list out :=
         let '(h3, outs2) := send_session h2 m (SRoom 0) in (h3, outs1 ++ outs2)
   end.
 
+(* ---- the room's transient data (room.go Set/RemoveTransientData -> transient_data.go) ----
+   Listeners of a room's data are the client sessions (ordinary and internal, not virtual) that are in the room:
+   Room.AddSession registers them, Room.RemoveSession removes them.  Every listener is notified, the session that
+   made the request included.  No time-to-live here (see Transient.v). *)
+Definition transient_listeners (h : hub) (r : room) : list N :=
+  filter (fun m => match get_sess h m with
+                   | Some t => negb (is_virtual t.(s_kind)) | None => false end) r.(r_members).
+Definition room_set_transient (r : room) (d : alist N) : room :=
+  mkroom r.(r_members) r.(r_incall) r.(r_sessdata) d r.(r_props).
+Definition transient_notify (h : hub) (k : N * N) (r : room) (d : alist N) (m : tmsg) : hub * list out :=
+  fold_sessions (set_rooms h (pset h.(h_rooms) k (room_set_transient r d))) (transient_listeners h r)
+                (fun hh x => send_session hh x (STransient m)).
+(* TransientData.SetTTL (a nil value removes) / Remove: nothing happens, and nothing is sent, when the key already
+   has the value / is absent *)
+Definition transient_update (h : hub) (k : N * N) (r : room) (del : bool) (key val : N) : hub * list out :=
+  let old := aget r.(r_transient) key in
+  if del || N.eqb val 0 then
+    match old with
+    | Some _ => transient_notify h k r (adel r.(r_transient) key) (TRemove key old)
+    | None => (h, [])
+    end
+  else
+    match old with
+    | Some v => if N.eqb v val then (h, [])
+                else transient_notify h k r (aset r.(r_transient) key val) (TSet key val old)
+    | None => transient_notify h k r (aset r.(r_transient) key val) (TSet key val old)
+    end.
+
 (* the room's handling of a request coming from the room API *)
 Definition room_request (h : hub) (k : N * N) (q : apireq) : hub * list out :=
   match room_of h k with
@@ -978,6 +1020,7 @@ Definition room_request (h : hub) (k : N * N) (q : apireq) : hub * list out :=
       | AMessage tag => (publish h (SubjRoom (fst k) (snd k)) (AEvent (SRoomMsg tag) 0 false), [])
       | ADisinvite _ _ => (h, [])
       | ADialout _ => (h, [])
+      | ATransient del key val => transient_update h k r del key val
       end
   end.
 
@@ -1073,6 +1116,7 @@ Definition do_api (h : hub) (b room : N) (q : apireq) : hub * list out :=
   | AUpdate tag => (publish h (SubjBackendRoom b room) (ARoomReq q), [])
   | AMessage tag => (publish h (SubjBackendRoom b room) (ARoomReq q), [])
   | AInCallAll _ => (publish h (SubjBackendRoom b room) (ARoomReq q), [])
+  | ATransient _ _ _ => (publish h (SubjBackendRoom b room) (ARoomReq q), [])
   | AInCall l =>
       let l' := flat_map (fun u => let '(i, ic, p) := u in match resolve_rs h i with Some sid => [(IdPub sid, ic, p)] | None => [] end) l in
       match l' with [] => (h, []) | _ => (publish h (SubjBackendRoom b room) (ARoomReq (AInCall l')), []) end
@@ -1403,30 +1447,17 @@ Definition step (h : hub) (o : op) : hub * list out :=
   | OMedia c to mk stream media => with_session h c (fun cn sid s => do_media h c sid s to mk stream media)
   | OMcuDone tok ok => do_mcudone h tok ok
   | OTransient c kindn key val =>
+      (* hub.go processTransientMsg: kindn 0 = "set" (val = 0: without value, which removes), 1 = "remove",
+         anything else = a type the server does not know *)
       with_session h c (fun cn sid s =>
         match s.(s_room) with
         | None => (h, [ToConn c (SError E_not_in_room)])
         | Some k =>
-            if negb (allowed_transient s) then (h, [ToConn c (SError E_not_allowed)])
+            if 2 <=? kindn then (h, [ToConn c (SError E_ignored)])
+            else if negb (allowed_transient s) then (h, [ToConn c (SError E_not_allowed)])
             else match room_of h k with
                  | None => (h, [])
-                 | Some r =>
-                     let listeners := filter (fun m => match get_sess h m with
-                                                       | Some t => negb (is_virtual t.(s_kind)) | None => false end) r.(r_members) in
-                     if N.eqb kindn 0 then
-                       match aget r.(r_transient) key with
-                       | Some v => if N.eqb v val then (h, [])
-                                   else let h1 := set_rooms h (pset h.(h_rooms) k (mkroom r.(r_members) r.(r_incall) r.(r_sessdata) (aset r.(r_transient) key val) r.(r_props))) in
-                                        fold_sessions h1 listeners (fun hh m => send_session hh m (STransient 1 key))
-                       | None => let h1 := set_rooms h (pset h.(h_rooms) k (mkroom r.(r_members) r.(r_incall) r.(r_sessdata) (aset r.(r_transient) key val) r.(r_props))) in
-                                 fold_sessions h1 listeners (fun hh m => send_session hh m (STransient 1 key))
-                       end
-                     else
-                       match aget r.(r_transient) key with
-                       | Some _ => let h1 := set_rooms h (pset h.(h_rooms) k (mkroom r.(r_members) r.(r_incall) r.(r_sessdata) (adel r.(r_transient) key) r.(r_props))) in
-                                   fold_sessions h1 listeners (fun hh m => send_session hh m (STransient 2 key))
-                       | None => (h, [])
-                       end
+                 | Some r => transient_update h k r (N.eqb kindn 1) key val
                  end
         end)
   | ODeliver pos => deliver_at h (N.to_nat pos)
